@@ -23,7 +23,7 @@ func TestMain(m *testing.M) {
 		Property: "C13", Level: "exploration",
 		Rule: "rapid draws a prefix history (updates, deletes, commits at drawn collapse levels with disciplined garbage collection) ending in a clean committed checkpoint (possibly empty), SaveRoot(), then a batch of changes drawn from {new keys, changed values, same-value rewrites, delete-and-re-add of identical content, deletes, nothing}, commit at a drawn level + batch write, 0 or 1 garbage-collection pass, rollback through Rollback() or RollbackTrie(checkpoint given as NewHashNode(root, weight), as CopyRoot(level) taken at the checkpoint, or nil for the empty trie), then 0..2 further collection passes and optionally new updates and a commit. " +
 			"Oracle: after the rollback Root()/Weight() equal the checkpoint's; a trie reopened from the checkpoint root and the rolled-back trie itself pass the full observation (reference root, owner and verifying proof for the first/last block of every key) against the checkpoint model, immediately and after each later collection pass, and the raw-record walk from the checkpoint root finds every node; with New = storage keys after the rolled-back commit's batch minus storage keys just before it (computed from the harness's own snapshots), no key of New is left in storage after the rollback. " +
-			"Non-trivial = the rolled-back commit re-created at least one node hash that the checkpoint state already contained and created at least one genuinely new node; distinct = distinct step log.",
+			"The checkpoint given to RollbackTrie may be a CopyRoot(level) copy; the rolled-back trie itself is observed too; updates may go back to an earlier value. A large case rolls back a batch that re-adds or changes 180..700 checkpoint keys and adds 300..800 new ones. Non-trivial = the rolled-back commit re-created at least one node hash that the checkpoint state already contained and created at least one genuinely new node; distinct = distinct step log.",
 		Assumptions: []string{"storage is internal/memkv", "at most one collection pass runs between the commit and its rollback (two passes legitimately delete the checkpoint's replaced nodes)", "equal values across keys are excluded while the C11 shared-node finding is listed"},
 	})
 	ev.Main(m)
